@@ -25,11 +25,17 @@ func VH_C18_CertChainWrite() {
 	sc, bsc := mk("sct", 2)
 	chain := CertChain{&AugmentedCertificate{Cert: &x509.Certificate{Raw: d0}, OCSPResponse: oc, SCTList: sc}, &AugmentedCertificate{Cert: &x509.Certificate{Raw: vh.Bytes("d1", 1)}}}
 	other := CertChain{&AugmentedCertificate{Cert: &x509.Certificate{Raw: []byte{1}}, OCSPResponse: []byte{2}}}
-	var w1, w2, w3 vh.Sink
-	e1 := chain.Write(&w1)
-	other.Write(&w3)
-	e2 := chain.Write(&w2)
-	vh.Assert(e1 == nil && e2 == nil && bytes.Equal(w1.B, w2.B), "same logical input, same bytes (repeated, interleaved)")
+	run := func(c CertChain) ([]byte, error) {
+		return vh.Isolated(func() ([]byte, error) { // write-set recorder on
+			var w vh.Sink
+			err := c.Write(&w)
+			return w.B, err
+		})
+	}
+	o1, e1 := run(chain)
+	run(other)
+	o2, e2 := run(chain)
+	vh.Assert(e1 == nil && e2 == nil && bytes.Equal(o1, o2), "same logical input, same bytes (repeated, interleaved)")
 	ok := true
 	for _, p := range []struct {
 		b []byte
